@@ -289,7 +289,7 @@ def declared_twin(v):
 
 def standard_ops(variants, files, js=(1, 3), with_faults=True, with_rm=True, targets_extra=(), touch=False,
                  fault_modes=(({"code": 1}), ({"code": 200, "touch": True})), ks=(1,), max_fault_stmts=None,
-                 pair_faults=False, rm_depfiles=False):
+                 pair_faults=False, rm_depfiles=False, edits_during=True):
     """A generic operation alphabet for a scenario (see DESIGN.md 5/C01)."""
     v0 = variants[0]
     ops = []
@@ -314,6 +314,20 @@ def standard_ops(variants, files, js=(1, 3), with_faults=True, with_rm=True, tar
         ops.append(ninja_op(j=j))
     for t in targets_extra:
         ops.append(ninja_op(targets=[t], j=js[-1]))
+    if edits_during:
+        # a source is edited while the command that reads it runs (not for restat/generator statements,
+        # whose log entry carries the output's own time: the documented exception)
+        by_out = v0.by_out()
+        done = 0
+        for s in cmd_stmts:
+            if s.restat or s.generator or getattr(s, "dyn_restat", False) or s.copy:
+                continue
+            reads = [x for x in expand_reads(s.ex + s.im, by_out) + s.hidden if x in srcs]
+            if not reads or done >= 2:
+                continue
+            done += 1
+            ops.append(ninja_op(j=js[-1], edits_during=[(s.id, reads[0], reads[0] + "-edited-while-" + s.id + "-ran\n")],
+                                label="ninja -j%d, %s edited while %s runs" % (js[-1], reads[0], s.id)))
     if with_faults:
         fs = cmd_stmts if max_fault_stmts is None else cmd_stmts[:max_fault_stmts]
         for s in fs:
